@@ -26,6 +26,7 @@ fn main() {
         "cfgbuild" => cfgbuild::main(rest),
         "fanout" => fanout::main(rest),
         "pattern" => pattern::main(rest),
+        "width" => pattern::main_width(rest),
         "literals" => literals::main(rest),
         "envexpand" => envexpand::main(rest),
         "reconfig" => reconfig::main(rest),
